@@ -31,9 +31,26 @@ def asSigRef (slices : Array SigRef) (v : Json) : R SigRef := do
     | some s => pure s
     | none => throw s!"unknown slice {j}"
 
+/-- an entry of a mixed tuple: `[start, stop, step]` (slice), an integer, or `{"a": [...]}` (the integer array) -/
+def asMixed (items : List Json) : R SliceSpec := do
+  let rec go (pre : List BItem) (arr : Option (List Int)) (post : List BItem) : List Json → R SliceSpec
+    | [] => pure (.mixed pre.reverse arr post.reverse)
+    | it :: rest => do
+      match it.getObjVal? "a" with
+      | .ok a =>
+        if arr.isSome then throw "mixed: more than one integer array is outside the input language"
+        go pre (some (← asList asInt a)) post rest
+      | .error _ =>
+        let b : BItem ← match it with
+          | .arr _ => do pure (BItem.sl (← asSlice it))
+          | _ => do pure (BItem.int (← asInt it))
+        if arr.isSome then go pre arr (b :: post) rest else go (b :: pre) arr post rest
+  go [] none [] items
+
 def asSpec (v : Json) : R SliceSpec := do
   let k ← getStr v "k"
   match k with
+  | "mixed" => asMixed (← getList pure v "sl")
   | "basic" => pure (.basic (← asSlice (← getField v "sl")))
   | "tuple" => pure (.tuple (← getList asSlice v "sl"))
   | "int" => pure (.intArr (← getList asInt v "sl"))
@@ -130,6 +147,7 @@ def dataJ (c : Bool) (shape : List Nat) (d : List GI) : Json :=
 def valJ (h : Heap) : PVal → Json
   | .none => Json.null
   | .sc c x => Json.arr #["sc", boolJ c, intJ x.re, intJ x.im]
+  | .npsc c x => Json.arr #["npsc", boolJ c, intJ x.re, intJ x.im]
   | .arr r => dataJ (h.objs r).cplx (h.objs r).shape (h.objs r).data
   | .view r idx shp => dataJ (h.objs r).cplx shp (h.read r idx)
 
